@@ -77,6 +77,11 @@ def discover():
             m = re.match(r"\s*//@\s*(C\d+)\s+(quick|thorough|witness)\s+(\d+)\s+(.*)$", ln)
             if m:
                 meta = list(m.groups())
+                kargs = []
+                mk = re.search(r" \| kani=(\S+)", meta[3])
+                if mk:
+                    kargs = mk.group(1).split(",")
+                    meta[3] = meta[3].replace(mk.group(0), "")
                 mem = 4
                 mm = re.search(r" \| mem=(\d+)", meta[3])
                 if mm:
@@ -91,6 +96,7 @@ def discover():
                         uw.append((rx.strip(), None if no == "*" else int(no), int(bound)))
                 meta.append(uw)
                 meta.append(mem)
+                meta.append(kargs)
                 continue
             m = re.match(r"\s*//!\s*@functions\s+(C\d+)\s*:\s*(.*)$", ln)
             if m:
@@ -118,6 +124,7 @@ def discover():
                         module=mod,
                         unwindset=meta[4],
                         mem_gb=meta[5],
+                        kani_args=meta[6],
                     )
                 )
                 meta = None
@@ -229,6 +236,7 @@ def kani_cmd(h, target_dir, playback=False, cbmc_args=None):
     ]
     if h.get("feature"):
         cmd += ["--features", h["feature"]]
+    cmd += h.get("kani_args") or []
     if playback:
         cmd += ["-Z", "concrete-playback", "--concrete-playback", "print"]
     if cbmc_args:
